@@ -58,6 +58,8 @@ class Query:
     order_by: list[Order] = dataclasses.field(default_factory=list)
     limit: int | None = None
     offset: int | None = None
+    # set by `summarize`, also when there is no column to group by
+    is_aggregated: bool = False
 
 
 class SqlImpl(TableImpl):
@@ -444,7 +446,7 @@ class SqlImpl(TableImpl):
             query.select += nd.uuids
 
         elif isinstance(nd, verbs.Filter):
-            if query.group_by:
+            if query.is_aggregated:
                 query.having.extend(nd.predicates)
             else:
                 query.where.extend(nd.predicates)
@@ -465,6 +467,7 @@ class SqlImpl(TableImpl):
             ] + nd.uuids
             query.partition_by = []
             query.order_by.clear()
+            query.is_aggregated = True
 
         elif isinstance(nd, verbs.SliceHead):
             if query.limit is None:
